@@ -41,4 +41,16 @@ CHECKS = {
                 "differentially each run); Vec capacity = 16384 exactly.",
         "technique": "Coq proof (invariants by induction over histories and over write_all) + model/implementation correspondence",
     },
+    "C16": {
+        "text": "Coq theorems (Props/C16.v) about the four scanners as parser programs: on every view (every stream, cursor and "
+                "buffering state) every admissible run returns exactly the documented offset, leaves cursor/mark/stream untouched, "
+                "and the highest offset it asks for is the minimal one (first non-blank; one byte, two after CR; the LF; first "
+                "mismatch and never beyond the pattern; nothing for the empty pattern). Proved by induction on the input, no size "
+                "bound. The programs are tied to text.rs by the tx correspondence stream (complete small scope, one byte per read, "
+                "buffered-byte counts compared) in debug and release builds.",
+        "design_ref": "DESIGN.md 2/C16",
+        "note": "Trusted: Coq kernel; extraction; hand transcription of text.rs into Text.v (validated differentially, exhaustively "
+                "for short inputs); fuel parameters exceed the input length.",
+        "technique": "Coq proof (induction over the input on an abstract reader view) + exhaustive small-scope correspondence",
+    },
 }
